@@ -197,7 +197,8 @@ async fn body_seq<C: Counter>(c: &C, incs: &[u32], cross: bool) -> Vec<ReadObs> 
         let k = c.next_ack().await as usize;
         acked[k] += 1;
         let mut keys = vec![key];
-        if cross && c.keyed() {
+        // a key that was never incremented has no count and a read of it gets no answer at all
+        if cross && c.keyed() && acked[(3 - key) as usize] > 0 {
             keys.push(3 - key);
         }
         for rk in keys {
@@ -263,7 +264,7 @@ fn run_prog<C: Counter>(
                 if k >= 2 {
                     cases.push(("pipe", incs.clone()));
                 }
-                if c.keyed() && (thorough || k <= 2) {
+                if c.keyed() && k >= 2 && incs.contains(&1) && incs.contains(&2) {
                     cases.push(("seq_cross", incs));
                 }
             }
@@ -341,8 +342,9 @@ pub fn run(rep: &mut Report, thorough: bool, replay: Option<Value>) {
     rep.explanation = "every read that the body issued after observing the acknowledgement of i increments of a key must return a count >= i; the same harness run on the repo's non-atomic/buggy tutorial variants must find stale reads (vacuity guard)".into();
     rep.assume("unordered outputs are read through an `assume_ordering` observation appended by the harness (the programs themselves are the repo's functions, unmodified)");
     rep.assume("the simulator's exhaustive search itself is complete (C37)");
-    let k_max = if thorough { 3 } else { 2 };
+    let k_max = if thorough { 4 } else { 3 };
     rep.bound("max_increments", k_max);
+    rep.bound("max_increments_buggy_variants_and_partitioned", k_max - 1);
     rep.bound("keys", 2);
 
     let mut tally = Tally { per_prog: Default::default() };
@@ -372,7 +374,7 @@ pub fn run(rep: &mut Report, thorough: bool, replay: Option<Value>) {
     macro_rules! prog {
         ($sim:expr, $c:expr, $buggy:expr, $reset:expr) => {{
             let mut st = Stats::new();
-            run_prog(&mut st, &mut tally, &$sim, &$c, $buggy, k_max, thorough, &replay, $reset);
+            run_prog(&mut st, &mut tally, &$sim, &$c, $buggy, if $buggy { 2 } else { k_max }, thorough, &replay, $reset);
             let t = tally.per_prog.get($c.name()).copied().unwrap_or((0, 0));
             println!("  [{}] executions={} stale_read_executions={} violations={}", $c.name(), t.0, t.1, st.violations_total);
             rep.section($c.name(), st);
@@ -454,7 +456,7 @@ pub fn run(rep: &mut Report, thorough: bool, replay: Option<Value>) {
         let sim = flow.sim().with_cluster_size(&shards, 5).compiled();
         let mut st = Stats::new();
         // the network hops multiply the schedules: one increment fewer than the other programs
-        run_prog(&mut st, &mut tally, &sim, &pc, false, if thorough { 2 } else { 1 }, false, &replay, &|| {});
+        run_prog(&mut st, &mut tally, &sim, &pc, false, k_max - 1, false, &replay, &|| {});
         let t = tally.per_prog.get(pc.name()).copied().unwrap_or((0, 0));
         println!("  [{}] executions={} stale_read_executions={} violations={}", pc.name(), t.0, t.1, st.violations_total);
         rep.section(pc.name(), st);
